@@ -47,3 +47,17 @@ Print Assumptions C15_generated_meta_type_is_the_model.
 Example C15_nonvacuous : start (mkStart [2; 1; 3] None true true) = Started true true true /\
                          start (mkStart [3; 0] (Some [3; 0]) true false) = RejectedNotCompliant.
 Proof. vm_compute. split; reflexivity. Qed.
+
+(* the property theorems, stated of the regenerated source itself: *)
+Theorem C15_generated_accepted_iff : forall s, version s <> [] -> (forall e, explicit s = Some e -> e <> []) ->
+  (exists a b c, gen_start_of s = Started a b c) <->
+  (major (version s) < 4 /\ (forall e, explicit s = Some e -> e = version s) /\
+   ~ (inproc s = true /\ compliant s = false /\ 3 <= major (version s))).
+Proof. exact generated_accepted_iff. Qed.
+Print Assumptions C15_generated_accepted_iff.
+Theorem C15_generated_requests_through_the_adapters : forall v e st, init_and_get_adapter (Some v) e = GProxy st ->
+  (forall n, send_through v3_send v2_send st (RStep n) = Some (RStep (if vlt v [3] then Nat.min n 2 else n))) /\
+  send_through v3_send v2_send st RSetupDone = (if vlt v [2; 2] then None else Some RSetupDone) /\
+  (forall k, send_through v3_send v2_send st (ROther k) = Some (ROther k)).
+Proof. exact generated_requests_through_the_adapters. Qed.
+Print Assumptions C15_generated_requests_through_the_adapters.
